@@ -3,6 +3,7 @@ package wl
 import (
 	"encoding/json"
 	"fmt"
+	"github.com/xelaj/mtproto/internal/transport"
 	"math/rand"
 	"reflect"
 	"sort"
@@ -39,7 +40,12 @@ const hookAlways = 1 << 20 // delay values at or above this mean "always", not "
 var theHooks = &hookCtl{delay: map[string]int{}, hits: map[string]int64{}}
 
 func init() {
-	mtproto.SetVerifHook(func(name string, arg int64) {
+	mtproto.SetVerifHook(hookFn)
+	transport.SetVerifHook(hookFn) // H5: wire.written, inside transport.WriteMsg right after the socket write
+}
+
+func hookFn(name string, arg int64) {
+	func() {
 		h := theHooks
 		if atomic.LoadInt32(&h.active) == 0 {
 			return
@@ -68,7 +74,7 @@ func init() {
 		if d > 0 {
 			time.Sleep(time.Duration(d) * time.Microsecond)
 		}
-	})
+	}()
 }
 
 func (h *hookCtl) start(r *rand.Rand, delays map[string]int, gate func(string, int64)) {
